@@ -241,7 +241,15 @@ pub fn gen_tree(rng: &mut Rng, mode: TreeMode) -> TreeSpec {
         match rng.below(8) {
             0 if dirs.len() > 1 => roots = vec![dirs[1 + rng.below(dirs.len() - 1)].clone()],
             1 if !files.is_empty() => roots = vec![files[rng.below(files.len())].clone()],
-            2 if !files.is_empty() => roots.push(files[rng.below(files.len())].clone()),
+            2 if !files.is_empty() => {
+                // a file root before or after the directory root
+                let f = files[rng.below(files.len())].clone();
+                if rng.chance(1, 2) {
+                    roots.push(f);
+                } else {
+                    roots.insert(0, f);
+                }
+            }
             3 if dirs.len() > 1 => roots.push(dirs[1 + rng.below(dirs.len() - 1)].clone()), // overlapping
             5 | 6 => {
                 // a further root that lives on another file system (reached
